@@ -1,6 +1,7 @@
 pub mod allocmc;
 pub mod c01;
 pub mod c02;
+pub mod c04;
 pub mod c12;
 pub mod c13;
 pub mod c14;
@@ -20,6 +21,7 @@ pub fn dispatch(p: &str, ctx: &Ctx) -> Option<Report> {
     Some(match p {
         "C01" => c01::run(ctx),
         "C02" => c02::run(ctx),
+        "C04" => c04::run(ctx),
         "C12" => c12::run(ctx),
         "C13" => c13::run(ctx),
         "C14" => c14::run(ctx),
